@@ -137,6 +137,13 @@ pub fn run(ctx: &mut Ctx) {
                 |c| {
                     let bytes = m.apply(&t.bytes);
                     let mut scheds = vec![ISched::one_shot(), ISched { steps: vec![IStep { n: len - if t.kind == WrapKind::Zlib { 4 } else { 8 }, room: AMPLE, flush: Z_NO_FLUSH }], tail_in: AMPLE, tail_room: AMPLE, tail_flush: Z_NO_FLUSH }];
+                    // Z_FINISH calls that receive all the data but only part of the trailer, the rest in a later call
+                    let tl = if t.kind == WrapKind::Zlib { 4 } else { 8 };
+                    for k in [1usize, 2, 3, tl - 1, tl] {
+                        if !long || mi % 8 == 0 {
+                            scheds.push(ISched { steps: vec![IStep { n: len - k, room: AMPLE, flush: Z_FINISH }], tail_in: AMPLE, tail_room: AMPLE, tail_flush: Z_FINISH });
+                        }
+                    }
                     if long {
                         // the full schedule set on the intact stream and on trailer faults; one-shot elsewhere
                         if mi == 0 || matches!(m, Mutation::ByteSub(i, _) if *i + 12 >= len && mi % 16 == 1) {
